@@ -39,6 +39,24 @@ fn leader_type(t: MessageType) -> bool {
 }
 
 impl World {
+    /// Focus mode (used by `check <ID>`): a firing of another property's monitor does not end
+    /// the run; it is counted and the run goes on, so that the consequences for the property in
+    /// focus are still observed. Harness self-check failures and panics always end the run.
+    pub fn gate(&mut self, r: VResult<()>) -> VResult<()> {
+        match r {
+            Err(v) => {
+                if let Some(f) = self.focus {
+                    if v.prop != f && v.prop != "HARNESS" && v.check != "C20.no_panic" {
+                        *self.suppressed.entry(v.check).or_insert(0) += 1;
+                        return Ok(());
+                    }
+                }
+                Err(v)
+            }
+            ok => ok,
+        }
+    }
+
     // ====================================================================================
     // per-call monitors
     // ====================================================================================
@@ -50,7 +68,8 @@ impl World {
         // ---------------- C06.term_monotone
         if !is_new && c.post.term < c.pre.term {
             let d = format!("node {n}: term went from {} to {} in {}", c.pre.term, c.post.term, kind_name(c.kind));
-            return Err(self.violation("C06", "C06.term_monotone", n, d, "term_decreased".into()));
+            let v = self.violation("C06", "C06.term_monotone", n, d, "term_decreased".into());
+            self.gate(Err(v))?;
         }
 
         // ---------------- C02.one_leader_per_term
@@ -59,7 +78,8 @@ impl World {
                 Some(l) if *l != n => {
                     let d = format!("nodes {} and {} are both leader of term {}", l, n, c.post.term);
                     let sig = "two_leaders".to_string();
-                    return Err(self.violation("C02", "C02.one_leader_per_term", n, d, sig));
+                    let v = self.violation("C02", "C02.one_leader_per_term", n, d, sig);
+                    self.gate(Err(v))?;
                 }
                 Some(_) => {}
                 None => {
@@ -74,14 +94,17 @@ impl World {
         }
 
         // ---------------- log shadow diff: C05 (all three), feeds REG
-        self.check_log_diff(c)?;
+        let r = self.check_log_diff(c);
+        self.gate(r)?;
 
         // ---------------- C04 (before C01 so that an unjustified commit is attributed to the commit rule)
-        self.check_commit_rule(c)?;
+        let r = self.check_commit_rule(c);
+        self.gate(r)?;
 
         // ---------------- C01.commit_agreement (a): commit index advance
         if c.post.commit > c.pre.commit || is_new {
-            self.report_commit(n, c.pre.commit, c.post.commit, is_new)?;
+            let r = self.report_commit(n, c.pre.commit, c.post.commit, is_new);
+            self.gate(r)?;
         }
         {
             let node = self.nodes.get_mut(&n).unwrap();
@@ -95,25 +118,35 @@ impl World {
 
         // ---------------- C03.leader_has_committed on election
         if c.post.role == StateRole::Leader && (c.pre.role != StateRole::Leader || c.pre.term != c.post.term || is_new) {
-            self.check_leader_complete(n, self.ghost.base + 1)?;
+            let r = self.check_leader_complete(n, self.ghost.base + 1);
+            self.gate(r)?;
         }
 
         // ---------------- step-specific
         if let CallKind::Step(m) = c.kind {
-            self.check_step(c, m)?;
+            let r = self.check_step(c, m);
+        self.gate(r)?;
         }
 
         // ---------------- C14.pointers
-        self.check_pointers(c)?;
+        let r = self.check_pointers(c);
+        self.gate(r)?;
 
         // ---------------- later-phase monitors
-        self.check_membership_call(c)?;
-        self.check_flow(c)?;
-        self.check_transfer(c)?;
-        self.check_quorum_math(c)?;
-        self.check_snapshot_call(c)?;
-        self.check_prevote_terms(c)?;
-        self.check_lockstep_invariant(c)?;
+        let r = self.check_membership_call(c);
+        self.gate(r)?;
+        let r = self.check_flow(c);
+        self.gate(r)?;
+        let r = self.check_transfer(c);
+        self.gate(r)?;
+        let r = self.check_quorum_math(c);
+        self.gate(r)?;
+        let r = self.check_snapshot_call(c);
+        self.gate(r)?;
+        let r = self.check_prevote_terms(c);
+        self.gate(r)?;
+        let r = self.check_lockstep_invariant(c);
+        self.gate(r)?;
         Ok(())
     }
 
@@ -880,7 +913,9 @@ impl World {
     pub fn after_storage_op(&mut self, n: NodeId) -> VResult<()> {
         let probe = crate::prng::mix(self.step_no, n);
         let node = &self.nodes[&n];
-        match node.disk.differential(probe) {
+        let diff = std::panic::catch_unwind(std::panic::AssertUnwindSafe(|| node.disk.differential(probe)))
+            .unwrap_or_else(|_| Err(format!("query panicked: {}", take_last_panic().unwrap_or_default())));
+        match diff {
             Ok(k) => {
                 *self.stats.entry("chk.C19.differential").or_insert(0) += k;
             }
@@ -890,7 +925,14 @@ impl World {
                 return Err(self.violation("C19", "C19.differential", n, d, format!("memstorage:{sig}")));
             }
         }
-        self.check_logical_log(n)
+        let r = std::panic::catch_unwind(std::panic::AssertUnwindSafe(|| self.check_logical_log(n)));
+        match r {
+            Ok(x) => x,
+            Err(_) => {
+                let d = format!("node {n}: a RaftLog query panicked: {}", take_last_panic().unwrap_or_default());
+                Err(self.violation("C14", "C14.logical_log", n, d, "raftlog:query_panicked".into()))
+            }
+        }
     }
 
     pub fn full_recheck(&mut self) -> VResult<()> {
